@@ -225,6 +225,10 @@ def run_cosmic(W, cfg):
                     if _np.shape(fr) != shp or not _np.all(_np.isfinite(fr)) or _np.any(_np.asarray(fr) < 0):
                         return False
                     nr = lt_.detector._nrays(shp, (5e-6, 5e-6, 3e-6), ts, 4e4)
+                    if sd == 0 and shp == (7, 7):
+                        many = lt_.detector.cosmic_rays(shp, (5e-6, 5e-6, 3e-6), 1.0, rate=1.1e12)       # about 1350 rays in one frame
+                        if _np.shape(many) != shp or not _np.all(_np.isfinite(many)) or _np.any(_np.asarray(many) < 0) or float(_np.max(many)) > 1e9:
+                            return False
                     if nr >= 2 and not _np.any(_np.asarray(fr) > 0):
                         return False          # rays strike the frame: some charge is deposited
             return True
